@@ -54,6 +54,8 @@ import PyCraft.Props.C01BufferRefine
 #print axioms PyCraft.C01BufferFrame.read_packet_plain
 #print axioms PyCraft.C01BufferFrame.reads_state
 #print axioms PyCraft.C01BufferFrame.read_packet_compressed
+#print axioms PyCraft.C01BufferFrame.readPacketOps_plain
+#print axioms PyCraft.C01BufferFrame.readPacketOps_compressed
 #print axioms PyCraft.C01BufferRefine.send_at_end
 #print axioms PyCraft.C01BufferRefine.send_at_end_pos
 #print axioms PyCraft.C01BufferRefine.readMoreBuf_refines
